@@ -1475,7 +1475,19 @@ def env_side(rng, perturbed, side):
                  'LC_NUMERIC': rng.choice(['C', 'de_DE.UTF-8']),
                  'USER': rng.choice(['root', 'oe1rsa', 'nobody']),
                  'HOME': rng.choice(['/', '/root', '/nonexistent']),
-                 '_cwd': rng.choice(['/', '/tmp', '/usr'])})
+                 '_cwd': rng.choice(['/', '/tmp', '/usr', '/home/oe1rsa/antennas/20 m', '/srv/x/y/z/w'])},
+        # variables that programs and libraries commonly consult: each present
+        # in about half of the processes
+        environ_extra={k: v for k, v in (
+            ('NO_COLOR', '1'), ('TERM', rng.choice(['dumb', 'xterm-256color', 'vt100'])), ('DEBUG', '1'),
+            ('VERBOSE', '1'), ('LINES', str(rng.choice([24, 50]))), ('PWD', rng.choice(['/', '/somewhere/else'])),
+            ('LOGNAME', 'oe1rsa'), ('HOSTNAME', 'shack'), ('SHELL', '/bin/zsh'), ('EDITOR', 'vi'),
+            ('LC_ALL', rng.choice(['C', 'de_DE.UTF-8', 'tr_TR.UTF-8'])), ('LC_TIME', 'de_AT.UTF-8'),
+            ('PYTHONUNBUFFERED', '1'), ('NUMPY_EXPERIMENTAL_ARRAY_FUNCTION', '0'), ('CI', 'true'),
+            ('SOURCE_DATE_EPOCH', str(rng.randrange(10 ** 9, 2 * 10 ** 9))), ('MININEC_DEBUG', '1'),
+            ('MPLBACKEND', 'Agg'), ('DISPLAY', ':0')) if rng.random() < 0.5},
+        # when the cyclic garbage collector runs is not the program's business
+        gc=rng.choice([None, 'disabled', 'eager', 'between_ops']))
 
 
 def gen_plan(run_seed, tier='quick', env=None, kinds=None, shape=None):
